@@ -414,6 +414,12 @@ def r08_13(ctx):
 
 
 def run(ctx):
+    # a worker interrupted inside a task has sent no result for it: the counter its exit wait compares with the parent's
+    # credit counts results sent, not jobs taken (borrowed from C03) -- otherwise the signalled worker sits out 30 s
+    from .c03 import r03_4 as _r03_4
+    from .poolfacts import WorkloopAnchors as _WA
+    from ..report import Only as _Only8
+    _r03_4(_Only8(ctx, ('one-increment-per-executed-job', 'no-increment-before-task'), floor=2, doc='the completed counter moves after the task ran and its result was sent, never before'), _WA(ctx))
     r08_13(ctx)
     # the finalizer got the worker list at construction: it terminates the workers on *that* list
     from .c07 import r07_2
